@@ -262,34 +262,21 @@ fn check_word(
             _ => None,
         };
         let t_prev = prev_glyph.map(|c| (ctx.has_rule)(Some(c), Some(w.letters[0]))).unwrap_or(false);
-        // TeX quirk: implicit kerns and/or character-less ligatures separate the word from a
-        // preceding same-font character that has a rule with the first letter (e.g. `.b -> .^c_`
-        // then `.c -> .[7]c`: `. kern lig(c<-b)`; or `0d -> 0^._` then `0. -> 0y^.`:
-        // `0 lig(y<-) lig(.<-d)`). TeX's `ha` is then the kern (no left context, §903 "no
-        // punctuation found") or the character-less ligature (hu[0] = its glyph): the character
-        // that shaped the word's first node is invisible and TeX itself re-translates the word on
-        // its own.
-        let t_context_out_of_sight = {
-            let mut i = rs;
-            let mut skipped = 0;
-            while i > 0
-                && match &before[i - 1] {
-                    N::Kern { normal: true, .. } => true,
-                    N::Lig { orig, left: false, font, .. } => orig.is_empty() && *font == hf,
-                    _ => false,
-                }
-            {
-                i -= 1;
-                skipped += 1;
-            }
-            skipped > 0
-                && match i.checked_sub(1).map(|j| &before[j]) {
-                    Some(N::Char { c, font }) | Some(N::Lig { c, font, .. }) if *font == hf => {
-                        (ctx.has_rule)(Some(*c), Some(w.letters[0]))
-                    }
-                    _ => false,
-                }
-        };
+        // TeX quirk: the word's first node is a ligature that was shaped by a left context TeX can
+        // no longer see when it hyphenates. TeX §903 uses at most the glyph of the node directly
+        // before the word as hu[0]; if that glyph has no rule with the first letter (otherwise it
+        // is trigger (b)) the ligature cannot be formed again and TeX itself re-translates the word
+        // on its own. Seen as: an implicit kern in between (`.b -> .^c_` + `.c -> .[7]c`:
+        // `. kern lig(c<-b)`), a character-less ligature in between (`0d -> 0^._` + `0. -> 0y^.`:
+        // `0 lig(y<-) lig(.<-d)`), or the context character itself rewritten afterwards
+        // (`.c -> .^w_` + `.w -> _,w^`: `lig(,<-.) lig(w<-c)`). All need two chained rules.
+        let t_context_out_of_sight = !t_prev
+            && matches!(before[w.first], N::Lig { left: false, .. })
+            && match rs.checked_sub(1).map(|i| &before[i]) {
+                Some(N::Char { font, .. }) | Some(N::Lig { font, .. }) => *font == hf,
+                Some(N::Kern { normal: true, .. }) => true,
+                _ => false,
+            };
         let t_follower = override_char.map(|c| (ctx.has_lig_rule_with_right)(c)).unwrap_or(false);
         let regen = |left: bool| -> Vec<N> {
             (ctx.runner)(&word, left, override_char).into_iter().map(|n| with_font(n, hf)).collect()
@@ -335,7 +322,7 @@ fn check_word(
             ));
             rep.count("known:preceding_character_context_ignored");
         } else if t_context_out_of_sight && (is_on || is_off) {
-            rep.count("excluded_from_(1):TeX_cannot_see_the_context_behind_a_kern_or_empty_ligature");
+            rep.count("excluded_from_(1):TeX_cannot_see_the_context_that_shaped_the_first_ligature");
         } else if t_follower && (is_on || is_off || is_tex_restart) {
             // TeX itself reconstitutes the word with the following character as right boundary
             // (hyf_bchar, §897/§903) and keeps that character's own node: pinned by the unit tests
